@@ -166,6 +166,66 @@ impl Part for EveryNumber {
     }
 }
 
+// ------------------------------------------------------------------ what was parsed before does not matter
+/// parse(b) gives the same answer on a pristine thread and right after parse(a) - whatever a was (a string that is refused
+/// half-way, a very long one, one in another script). The first string is built to stress whatever a parser might keep between
+/// calls: digit runs of 1..600 characters (around 255 / 256 / 257 and the width of usize), non-ASCII numerals, several dots.
+pub struct AfterAnother;
+impl Part for AfterAnother {
+    type Case = (String, String);
+    fn name(&self) -> &'static str {
+        "parse-after-another-parse"
+    }
+    fn check(&self, c: &(String, String), ev: &mut Local) -> Result<(), Fail> {
+        let show = |r: &Result<Result<GameVersion, String>, String>| match r {
+            Ok(Ok(v)) => format!("Ok{}", describe(v)),
+            Ok(Err(e)) => format!("Err({e})"),
+            Err(p) => format!("panic: {p}"),
+        };
+        let alone = in_fresh_thread(|| show(&parse(&c.1)));
+        let first = show(&parse(&c.0));
+        let after = show(&parse(&c.1));
+        ensure!(
+            after == alone,
+            "c16:parse-depends-on-earlier-parse",
+            "{:?} parses to {alone} on a fresh thread, but to {after} right after parsing {:?} ({} characters; that gave {first})",
+            c.1,
+            c.0.chars().take(60).collect::<String>(),
+            c.0.chars().count()
+        );
+        // ... and the first string itself parses the same way a second time
+        let again = show(&parse(&c.0));
+        ensure!(again == first, "c16:parse-depends-on-earlier-parse", "{:?} ({} characters) parses to {first}, then to {again}", c.0.chars().take(60).collect::<String>(), c.0.chars().count());
+        if first.starts_with("Err") && after.starts_with("Ok") {
+            ev.nontrivial(c);
+            ev.class("a refused string, then a version");
+        } else {
+            ev.class("other");
+        }
+        ev.max("first-string-length", c.0.chars().count() as u64);
+        Ok(())
+    }
+    fn to_json(&self, c: &(String, String)) -> Value {
+        json!({"first": c.0, "then": c.1})
+    }
+    fn from_json(&self, v: &Value) -> Option<(String, String)> {
+        Some((v.get("first")?.as_str()?.to_string(), v.get("then")?.as_str()?.to_string()))
+    }
+}
+
+fn after_strategy() -> impl Strategy<Value = (String, String)> {
+    let run_len = prop_oneof![3 => 1usize..30, 3 => 30usize..300, 2 => 250usize..262, 2 => 300usize..600, 1 => Just(1024usize)];
+    let digit = prop::sample::select(vec!["7", "0", "9", "\u{0663}", "\u{ff17}", "\u{00b2}", "\u{0967}"]);
+    let first = (prop_oneof![Just("0.7A"), Just("0."), Just(""), Just("0.7"), Just("1.2."), Just("0.6U")], digit, run_len, prop_oneof![Just(""), Just("A"), Just("A3"), Just("."), Just("x"), Just("\u{0663}")])
+        .prop_map(|(head, d, n, tail)| format!("{head}{}{tail}", d.repeat(n)));
+    let then = prop_oneof![
+        3 => prop::sample::select(vec!["0.7F3", "0.7f", "0.6U", "0.04k", "0.7E15", "0.3H", "1", "0.7A", "10.25Z9"]).prop_map(String::from),
+        2 => "[0-9]{1,2}\\.[0-9]{1,2}[A-Za-z][0-9]{0,2}",
+        1 => random_strategy(),
+    ];
+    ((any::<u8>(), first, random_strategy()).prop_map(|(k, a, b)| if k % 5 == 0 { b } else { a }), then)
+}
+
 pub struct AlphabetStrings;
 impl Part for AlphabetStrings {
     type Case = String;
@@ -484,6 +544,7 @@ pub fn parts() -> Vec<Box<dyn DynPart>> {
     vec![
         Box::new(AlphabetStrings),
         Box::new(EveryNumber),
+        Box::new(AfterAnother),
         Box::new(RandomStrings),
         Box::new(WireForms),
         Box::new(Pairs),
@@ -509,6 +570,8 @@ pub fn run(run: &mut Run) {
     run.enumerate(&EveryNumber, 0x7f80 / stride, stride == 1, move |i| Some((i * stride + first) as u32));
     let n = run.budget(300_000, 20_000_000);
     run.prop(&RandomStrings, random_strategy(), n);
+    let n = run.budget(40_000, 2_000_000);
+    run.prop(&AfterAnother, after_strategy(), n);
     run.enumerate(&WireForms, 100, true, |i| Some(WireCase::Block(b'0' + (i / 10) as u8, b'0' + (i % 10) as u8)));
     let p = pool();
     let n = p.len() as u64;
